@@ -315,6 +315,14 @@ EndDead(ev) ==
        THEN MergeDead(dead, Prop(ev.p, e.x, TRUE, FALSE, DOMAIN dead = {} /\ ~AnyGuard))
        ELSE dead
 
+\* ---------------------------------------------------------------- cyclic references (C07d)
+Refs(t) == {T(t).deps[j].t : j \in 1..Len(T(t).deps)} \cup {T(t).cmds[i].cs.t : i \in {i \in 1..Len(T(t).cmds) : T(t).cmds[i].k \in {"call", "dcall"}}}
+RECURSIVE ReachFrom(_, _)
+ReachFrom(S, n) == IF n = 0 THEN S ELSE ReachFrom(S \cup UNION {Refs(t) : t \in S}, n - 1)
+OnCycleT(t) == t \in ReachFrom(Refs(t), Cardinality(DOMAIN Prog.tasks))
+Cyclic == \E t \in DOMAIN Prog.tasks : OnCycleT(t)
+CycleThroughDedup == \E t \in DOMAIN Prog.tasks : OnCycleT(t) /\ T(t).run # "always"
+
 \* ---------------------------------------------------------------- return of Run (C03 C07 C13 C14)
 RootDead == {p \in DOMAIN dead : Len(p) = 1 /\ p[1][1] = "r"}
 
@@ -334,13 +342,17 @@ GuardWitness ==
 RetViol(r) ==
   (IF Running # {} THEN {Viol("C07", "returned-while-running")} ELSE {})
   \cup
+  \* cyclic references end with the "called too many times" error (204), or a task-run error (201)
+  \* wrapping it when the cycle goes through task: commands
+  (IF Cyclic /\ r.code \notin {204, 201} THEN {Viol("C07", "cycle-not-reported")} ELSE {})
+  \cup
   (IF RootDead # {} /\ r.code = 0 THEN {Viol("C03", "failure-lost")} ELSE {})
   \cup
   (IF RootDead # {} /\ r.code # 0 /\ ~AnyGuard /\
       ~(r.code = 201 /\ (r.xcode \in UNION {dead[p].xs : p \in RootDead} \/ (r.xcode = 201 /\ (HasDedup \/ \E p \in DOMAIN dead : ~dead[p].sure))))
    THEN {Viol("C03", IF \A p \in RootDead : dead[p].viaDep THEN "status-of-dep-failure" ELSE "status")} ELSE {})
   \cup
-  (IF DOMAIN dead = {} /\ ~AnyGuard /\ r.code # 0 /\ r.code # 204 THEN {Viol("C03", "spurious-error")} ELSE {})
+  (IF DOMAIN dead = {} /\ ~AnyGuard /\ ~Cyclic /\ r.code # 0 /\ r.code # 204 THEN {Viol("C03", "spurious-error")} ELSE {})
   \cup
   \* every failure was swallowed by an ignore_error on the way up: the final status is unaffected
   (IF DOMAIN dead # {} /\ RootDead = {} /\ ~AnyGuard /\ ~HasDedup /\ r.code # 0 /\ r.code # 204
@@ -422,7 +434,7 @@ OnRet(r) == /\ ret' = r
 OnQ(set) == /\ bad' = bad \cup QViol(set)
             /\ UNCHANGED <<begun, ended, dead, ret>>
 
-OnDL == /\ bad' = bad \cup {Viol("C07", "deadlock")}
+OnDL == /\ bad' = bad \cup {Viol("C07", IF CycleThroughDedup THEN "deadlock:cycle-through-deduplicated-task" ELSE "deadlock")}
         /\ UNCHANGED <<begun, ended, dead, ret>>
 
 MonUnchanged == UNCHANGED mvars
